@@ -10,6 +10,7 @@ REQ = "From SCK Require Import Voting VoteExt RunVote."
 ORD = V.RULES + ["Copeland"]
 
 class C11(Prop):
+    layouts = True
     translators = ['scoring', 'copeland', 'stv']   # models regenerated from deterministic_scoring.py / utils.py / deterministic_tournament.py on every run
     pid = "C11"
     sources = ["socialchoicekit/deterministic_scoring.py", "socialchoicekit/deterministic_tournament.py", "socialchoicekit/deterministic_multiround.py"]
@@ -21,10 +22,11 @@ class C11(Prop):
     rule = ("each case = (profile, voter permutation, alternative permutation, rule): the implementation is run on the profile, on the voter-permuted and on the renamed profile; "
             "exhaustive n,m<=3 slice with all permutations; orbit-symmetrised profiles (P together with its image under a transposition, so two alternatives hold equal rank multisets); "
             "random up to n=30, m=8; rules: five positional rules, Copeland, STV ('first'; neutrality only when no elimination tie), utilitarian, k-ARV and lambda-PRV behind truthful elicitors (1e-9 relative; m in 2..11, not only powers of two). "
+            "weak orders (dense ranks with ties) for Plurality / Borda / Harmonic wrapped in every profile class that admits ties (oracle only); input arrays in row-major, column-major and strided layouts. "
             "Non-trivial = both permutations are not the identity; distinct by input hash")
     trusted_base = ["theorems are about the exact models (Voting.v); the float summation order of numpy is outside the model: the metamorphic oracle runs on the implementation itself",
                     "k-ARV / lambda-PRV symmetry: metamorphic oracle on the implementation (family 'elicit'); their models are C14-C16's"]
-    assumptions = ["profiles are complete and strict; tie_breaker = 'accept' (STV: 'first')"]
+    assumptions = ["profiles are complete and strict (family 'weak': complete weak orders, for the rules whose signature admits them); tie_breaker = 'accept' (STV: 'first')"]
 
     def mk(self, fam, rule, P, pv, pa, k=1):
         return dict(entry=rule + ".symmetry", family=fam, rule=rule, method="scf", P=P, pv=pv, pa=pa, k=k, zi=True, tb=("first" if rule == "STV" else "accept"))
@@ -71,6 +73,24 @@ class C11(Prop):
             pv = list(range(len(P))); pv.reverse(); pa = list(range(m)); pa.reverse()
             c = self.mk("wide_pairs", ["Copeland", "Borda", "Copeland", "Harmonic"][i % 4], P, pv, pa, k=1)
             c["dtype"] = ["int64", "float", "int32"][i % 3]
+            yield c
+        # weak orders (ballots with indifference classes, dense ranks) for the rules whose signature admits them, wrapped in each profile class
+        # that admits ties; half of them symmetrised under a transposition of two alternatives
+        for i in range(120 if tier == "quick" else 2500):
+            n = rng.randint(1, 8); m = rng.randint(2, 6)
+            def weak():
+                t = rng.randint(1, m); cls = [rng.randrange(t) for _ in range(m)]
+                used = sorted(set(cls)); return [used.index(c) + 1 for c in cls]
+            base = [weak() for _ in range(n)]
+            rule = ["Plurality", "Borda", "Harmonic"][i % 3]
+            a, b = rng.sample(range(m), 2)
+            if i % 2 == 0:
+                base = base + [[row[b] if j == a else row[a] if j == b else row[j] for j in range(m)] for row in base]
+                rng.shuffle(base)
+            pv = list(range(len(base))); rng.shuffle(pv); pa = list(range(m)); rng.shuffle(pa)
+            c = self.mk("weak_orbit" if i % 2 == 0 else "weak", rule, base, pv, pa, k=1)
+            c["wrap"] = ["CompleteProfileWithTies", "CompleteProfile", "ProfileWithTies", "Profile"][(i // 3) % (4 if rule == "Plurality" else 2)]
+            if i % 2 == 0: c["tied"] = [a, b]
             yield c
         N = 150 if tier == "quick" else 2000
         for i in range(N):
@@ -158,7 +178,7 @@ class C11(Prop):
         return None
 
     def coq(self, case, obs):
-        if case["rule"] in ("STV", "KARV", "PRV"):
+        if case["rule"] in ("STV", "KARV", "PRV") or case["family"].startswith("weak"):
             return None
         sc = obs["voters"]["score"]; key, Mv, Ma = self.variants(case)
         if case["rule"] == "SocialWelfare":
